@@ -71,6 +71,9 @@ type c19RegLookup struct {
 	keyRoot   ssa.Value
 	keySuffix string
 	via       string // "" for a lookup made here, else the helper(s) it is made in
+	// errForm: the helper turns the ok flag into an error result (ip_h5.go): okIdx is the position
+	// of that error, which is nil exactly when the scheme was found and ErrMissingDialer otherwise
+	errForm bool
 }
 
 func (l c19RegLookup) keyPath() string { return derefPath(pathOf(l.keyRoot)) + l.keySuffix }
@@ -102,6 +105,7 @@ type c19LookupSum struct {
 	keyParam    int // the lookup is keyed by this parameter ...
 	keySuffix   string
 	via         string
+	errForm     bool
 }
 
 // c19Lookups lists the registry lookups of fn: its own, and those made for it by helpers.
@@ -119,9 +123,14 @@ func c19Lookups(fn *ssa.Function, pkg string, depth int) []c19RegLookup {
 			if depth >= 3 || callee == nil || callee == fn || len(callee.Blocks) == 0 || pkgRel(callee) != pkg {
 				return
 			}
-			if s := c19LookupSummary(callee, pkg, depth+1); s != nil && s.keyParam < len(x.Call.Args) {
+			s := c19LookupSummary(callee, pkg, depth+1)
+			if s == nil {
+				// (dialer, error) instead of (dialer, ok): nil error exactly on the found edge
+				s = h5LookupErrSummary(callee, pkg, depth+1)
+			}
+			if s != nil && s.keyParam < len(x.Call.Args) {
 				root, suf := g6KeySplit(x.Call.Args[s.keyParam])
-				out = append(out, c19RegLookup{tuple: x, dIdx: s.dIdx, okIdx: s.okIdx, keyRoot: root, keySuffix: suf + s.keySuffix, via: s.via})
+				out = append(out, c19RegLookup{tuple: x, dIdx: s.dIdx, okIdx: s.okIdx, keyRoot: root, keySuffix: suf + s.keySuffix, via: s.via, errForm: s.errForm})
 			}
 		}
 	})
@@ -165,7 +174,7 @@ func c19LookupSummary(fn *ssa.Function, pkg string, depth int) *c19LookupSum {
 		if l.via != "" {
 			via += " -> " + l.via
 		}
-		return &c19LookupSum{dIdx: di, okIdx: oi, keyParam: kp, keySuffix: l.keySuffix, via: via}
+		return &c19LookupSum{dIdx: di, okIdx: oi, keyParam: kp, keySuffix: l.keySuffix, via: via, errForm: l.errForm}
 	}
 	return nil
 }
